@@ -88,6 +88,8 @@ class Contract:
     # after a call to one of these callees (by function name) the rest of the body is abstracted: the path ends as a
     # normal return of an unmodelled value (float tails of the statistical tests); listed as an assumption
     self.stop_after = list(g("stop_after", []))
+    # declared types of local variables whose initial value does not determine it ([None] * n, [], {})
+    self.var_types = dict(g("var_types", {}))
     self.pure_fn = g("pure_fn", None)
     # functional contracts: the result as an expression of the parameters (used where no fresh symbol may be
     # introduced: inside comprehensions over symbolic sequences and quantifier bodies)
